@@ -108,7 +108,7 @@ type Evidence struct {
 }
 
 func newEvidence(property, level, rule string) *Evidence {
-	return &Evidence{
+	e := &Evidence{
 		Property:   property,
 		Level:      level,
 		Rule:       rule,
@@ -119,6 +119,13 @@ func newEvidence(property, level, rule string) *Evidence {
 		start:      time.Now(),
 		known:      loadKnown(property),
 	}
+	watchdogStart(e, func() interface{} {
+		if c := currentSeqCase.Load(); c != nil {
+			return *c
+		}
+		return nil
+	})
+	return e
 }
 
 // Record notes one evaluated case.
